@@ -331,6 +331,7 @@ def _count(w):
 
 
 # ------------------------------------------------------------------------------------------- mechanism rules
+@cd.cross_check('R9.4', 'the translation-validation corpus (R9.T) (DocsAlways, DocsDefault, DocsNever, DocParagraphs)')
 def docs_mechanism(chk, dprog, cfg):
     chk.rule("R9.4", "doc capture: generate_docs returns None on `never` before touching the attributes; selects `docs` on default and `docs_always` "
              "on always; each doc literal loses at most one leading space (strip_prefix(' ') class; trim/trim_start_matches are violations)")
@@ -420,6 +421,7 @@ def docs_mechanism(chk, dprog, cfg):
     chk.expect(isid == {"doc"}, "R9.4", "doc-attr-recogniser", b.where(), "attribute idents tested in generate_docs: %s" % sorted(isid), cfg)
 
 
+@cd.cross_check('R9.3', 'the translation-validation corpus (R9.T) (type_name of every field, Parens, Lifetimes)')
 def clean_type_string(chk, dprog, cfg):
     chk.rule("R9.3", "clean_type_string only rewrites whitespace: the only string-transforming operation it applies is str::replace(a, b) with constant pairs "
              "(written in place or taken from a constant table) that are equal after deleting spaces")
@@ -461,6 +463,7 @@ def clean_type_string(chk, dprog, cfg):
     chk.floor("R9.3", n, 15, "whitespace rewriting rules in clean_type_string: 15")
 
 
+@cd.cross_check('R9.2', 'the translation-validation corpus (R9.T)')
 def emission_order(chk, dprog, cfg):
     chk.rule("R9.2", "order and selection: type parameters come from generics.type_params(), fields from fields.iter().filter(!should_skip), variants from "
              "variants.into_iter().filter(!should_skip).enumerate(), doc lines from attrs.iter().filter_map(..): no reordering / dropping adapter on any of the flows")
